@@ -177,10 +177,10 @@ def run(ctx):
         rule.append("%s: all sequences <= %d over %s" % (name, L, ", ".join("%s=%s" % kv for kv in sorted(ov.items()))))
     ctx.cov["exhaustive"] = True
     # long seeded walks through larger constants
-    sims = ctx.sim_paths("sync", "Gen_Queue", "Gen_Queue.cfg", num=ctx.pick(300, 4000), depth=40,
-                         overrides={"L": 40, "NP": 14, "NG": 14, "NJ": 6, "MaxSizes": "{0, 1, 2, 3}", "Prios": "{1, 2, 3}",
-                                    "Timeouts": "{0, 1, 2, 3, 999}", "MaxAdvance": 3})
-    ctx.replay(sims, replayer, label="s2c-sim")
+    sync_paths.sim_replay(ctx, "Gen_Queue", "Gen_Queue.cfg", num=ctx.pick(600, 20000), depth=40,
+                          overrides={"L": 40, "NP": 14, "NG": 14, "NJ": 6, "MaxSizes": "{0, 1, 2, 3}", "Prios": "{1, 2, 3}",
+                                     "Timeouts": "{0, 1, 2, 3, 999}", "MaxAdvance": 3},
+                          replayer=replayer)
     # 3. code -> spec: random recorded runs validated by TLC
     c2s(ctx, ctx.pick(240, 4000))
     ctx.cov["rule"] = ("paths: " + "; ".join(rule) + "; per queue class; plus seeded TLC simulation walks (depth 40) and "
